@@ -38,5 +38,15 @@ CLAIMS.update({
                 text="For every decoded node without decoder-supplied sub-structure in every explored tree, the children must equal those of an isolated scan_node(Node(type,value), remaining depth).",
                 note="Assumes decoders are pure (C09 checks that)."),
 })
+CLAIMS.update({
+    "C12": dict(engine="seqx+streams", design_ref="DESIGN.md 4 (C12)",
+                technique="exhaustive enumeration of URLs / Windows paths from a bounded grammar; part children re-derived from the node value by an independent splitter/decoder",
+                text="Every URL of two bounded products of the RFC 3986 grammar (all scheme/userinfo/host/port combinations; every path of <=3/4 segments over 9 segment kinds) and every Windows path of 12 prefixes x <=3/5 segments x 5 file names is fed to the decoder in 3-4 embeddings; for every reported node the expected part children (type, value, label, span, order) are recomputed from the node's value without urllib/ntpath and compared. Same oracle on every URL/path node of the net/winpath/mix scan-level families.",
+                note="IPv6 canonical text from ipaddress; Windows forms on which the statement is silent are skipped by the reference normaliser."),
+    "C16": dict(engine="seqx+streams", design_ref="DESIGN.md 4 (C16)",
+                technique="exhaustive enumeration of command strings against a reference caret transducer, a regex-free cmd delimiter and a PowerShell invocation grammar",
+                text="strip_carets on every string over {^,\",CR,LF,a} up to length 9/11 against a three-state transducer; find_cmd_strings on every <=4/5-token string of a 19-token alphabet x 4 embeddings against a regex-free reference (complete result lists compared, so forward and converse); PowerShell invocations: token x switches x every prefix of -encodedcommand x -// style x quoting x payload x caret at every position x context.",
+                note="PowerShell generator restricted to the domain where the statement is unambiguous (listed in evidence assumptions). One known finding (end = len(data)-start, pinned by test_shell)."),
+})
 NOT_APPLICABLE = {pid: "check not built yet (work in progress; will be claimed or justified before the end)" for pid in
                   ["C02","C09","C10","C11","C12","C13","C14","C15","C16","C17","C18","C19","C20"]}
